@@ -68,51 +68,31 @@ Qed.
 Lemma exB_incl a b nc d d' : incl d d' -> exB a b nc d -> exB a b nc d'.
 Proof. intros I H j x Hn Hx. destruct (H j x Hn Hx) as [X|X]; [now left|right; now apply I]. Qed.
 
-(** what the executor computed fixes the result of any terminating reads evaluation *)
-Lemma align_dr_expr r D inp me args locs e g rc ds :
-  agrees r (fun g => sp_expr g D inp args locs e) -> r <> OutOfFuel -> r <> Err KDeep ->
-  dr_expr g D inp me args locs e = (rc, ds) -> rc <> OutOfFuel -> rc = r.
-Proof.
-  intros A Hr Hk Hc Hrc. pose proof (dr_expr_fst _ _ _ _ _ _ _ _ _ Hc) as F.
-  destruct r as [v|k|]; simpl in A; [| |congruence].
-  - destruct A as (g1 & A). symmetry. eapply sp_expr_det; eauto; discriminate.
-  - destruct A as [->|(g1 & A)]; [congruence|]. symmetry. eapply sp_expr_det; eauto; discriminate.
-Qed.
-Lemma align_dr_args r D inp me args locs es g rc ds :
-  agrees r (fun g => sp_args g D inp args locs es) -> r <> OutOfFuel -> r <> Err KDeep ->
-  dr_args g D inp me args locs es = (rc, ds) -> rc <> OutOfFuel -> rc = r.
-Proof.
-  intros A Hr Hk Hc Hrc. pose proof (dr_args_fst _ _ _ _ _ _ _ _ _ Hc) as F.
-  destruct r as [v|k|]; simpl in A; [| |congruence].
-  - destruct A as (g1 & A). symmetry. eapply sp_args_det; eauto; discriminate.
-  - destruct A as [->|(g1 & A)]; [congruence|]. symmetry. eapply sp_args_det; eauto; discriminate.
-Qed.
-
 Definition ex_expr (f : nat) : Prop :=
   forall st args locs line e r st' me d,
     eval_expr f st args locs line e = (r, st') -> r <> OutOfFuel ->
-    Good st -> defs_ok (s_cells st) -> s_reent st' = false -> Ctx st me d ->
+    Good st -> s_reent st' = false -> Ctx st me d ->
     exA st st' (NC st) /\
     (r <> Err KDeep -> forall g me' r' ds,
        dr_expr g (defs_of st) (input_data st) me' args locs e = (r', ds) -> r' <> OutOfFuel -> exB st st' (NC st) ds).
 Definition ex_args (f : nat) : Prop :=
   forall st args locs line es r st' me d,
     eval_args f st args locs line es = (r, st') -> r <> OutOfFuel ->
-    Good st -> defs_ok (s_cells st) -> s_reent st' = false -> Ctx st me d ->
+    Good st -> s_reent st' = false -> Ctx st me d ->
     exA st st' (NC st) /\
     (r <> Err KDeep -> forall g me' r' ds,
        dr_args g (defs_of st) (input_data st) me' args locs es = (r', ds) -> r' <> OutOfFuel -> exB st st' (NC st) ds).
 Definition ex_node (f : nat) : Prop :=
   forall st line i r st' d,
     eval_node f st line i = (r, st') -> r <> OutOfFuel ->
-    Good st -> defs_ok (s_cells st) -> s_reent st' = false -> d = List.length (s_stack st) - 1 ->
+    Good st -> s_reent st' = false -> d = List.length (s_stack st) - 1 ->
     exA st st' (NC st) /\
     (r <> Err KDeep -> forall g r' ds,
        dr_node g (defs_of st) (input_data st) i = (r', ds) -> r' <> OutOfFuel -> exB st st' (NC st) ds).
 Definition ex_formula (f : nat) : Prop :=
   forall st cl i r st' d,
     eval_formula f st cl i = (r, st') -> r <> OutOfFuel ->
-    Good st -> defs_ok (s_cells st) -> s_reent st' = false -> d = List.length (s_stack st) - 1 ->
+    Good st -> s_reent st' = false -> d = List.length (s_stack st) - 1 ->
     lookup_cell (s_cells st) (fst i) = Some cl ->
     (if cl_cached cl then lookup_data (s_data st) i else None) = None ->
     exA st st' (NC st) /\
@@ -121,7 +101,7 @@ Definition ex_formula (f : nat) : Prop :=
 Definition ex_body (f : nat) : Prop :=
   forall st args locs whole rest idx r st' ln me d,
     exec_body f st args locs whole rest idx = (r, st', ln) -> r <> OutOfFuel ->
-    Good st -> defs_ok (s_cells st) -> s_reent st' = false -> Ctx st me d -> body_ok rest = true ->
+    Good st -> s_reent st' = false -> Ctx st me d ->
     exA st st' (NC st) /\
     (r <> Err KDeep -> forall g me' r' ds,
        dr_body g (defs_of st) (input_data st) me' args locs rest = (r', ds) -> r' <> OutOfFuel -> exB st st' (NC st) ds).
@@ -153,7 +133,7 @@ Proof.
   assert (MB := proj2 (proj2 (proj2 (proj2 (reent_mono_all f))))).
   split; [|split; [|split; [|split]]].
   - (* ---------------- expressions ---------------- *)
-    intros st args locs line e r st' me d H Hr HG Hok Hre HC.
+    intros st args locs line e r st' me d H Hr HG Hre HC.
     destruct e; simpl in H;
       try (inversion H; subst; split; [apply exA_same; reflexivity|intros _ g me' r' ds _ _; apply exB_same; reflexivity]; fail).
     + (* EBin *)
@@ -161,7 +141,7 @@ Proof.
       assert (Hr1 : r1 <> OutOfFuel) by (intros ->; inversion H; subst; congruence).
       destruct (SE _ _ _ _ _ _ _ E1 Hr1 (proj1 HG)) as (I1 & F1 & A1).
       destruct r1 as [va|k1|]; [| |congruence].
-      2:{ inversion H; subst. destruct (IHe _ _ _ _ _ _ _ me d E1 Hr1 HG Hok Hre HC) as (XA & XB).
+      2:{ inversion H; subst. destruct (IHe _ _ _ _ _ _ _ me d E1 Hr1 HG Hre HC) as (XA & XB).
           split; [exact XA|]. intros Hk g me' r' ds Hd Hr'.
           destruct g; [simpl in Hd; inversion Hd; congruence|]. simpl in Hd.
           destruct (dr_expr g (defs_of st) (input_data st) me' args locs e1) as [ra d1] eqn:Da.
@@ -173,10 +153,10 @@ Proof.
       assert (Hst : st' = st2) by (destruct r2; inversion H; reflexivity). subst st2.
       assert (Hre1 : s_reent st1 = false) by exact (reent_false_of st1 st' (ME _ _ _ _ _ _ _ E2) Hre).
       assert (Hre0 : s_reent st = false) by exact (reent_false_of st st1 (ME _ _ _ _ _ _ _ E1) Hre1).
-      destruct (S2E _ _ _ _ _ _ _ me d E1 Hr1 HG Hok Hre0 HC) as [X|(G1 & _)]; [congruence|].
+      destruct (S2E _ _ _ _ _ _ _ me d E1 Hr1 HG Hre0 HC) as [X|(G1 & _)]; [congruence|].
       destruct (SE _ _ _ _ _ _ _ E2 Hr2 I1) as (I2 & F2 & A2).
-      destruct (IHe _ _ _ _ _ _ _ me d E1 Hr1 HG Hok Hre1 HC) as (XA1 & XB1).
-      destruct (IHe _ _ _ _ _ _ _ me d E2 Hr2 G1 (defs_ok_frame _ _ F1 Hok) Hre (Ctx_frame _ _ _ _ F1 HC)) as (XA2 & XB2).
+      destruct (IHe _ _ _ _ _ _ _ me d E1 Hr1 HG Hre1 HC) as (XA1 & XB1).
+      destruct (IHe _ _ _ _ _ _ _ me d E2 Hr2 G1 Hre (Ctx_frame _ _ _ _ F1 HC)) as (XA2 & XB2).
       destruct (frame_defs _ _ F1) as (D1 & Q1). rewrite (NC_frame _ _ F1) in XA2, XB2. rewrite D1, Q1 in XB2.
       split; [eapply exA_trans; eauto|].
       intros Hk g me' r' ds Hd Hr'.
@@ -201,7 +181,7 @@ Proof.
                          dr_expr g (defs_of st) (input_data st) me' args locs (EIfPos e1 e2 e3) = (r', ds) ->
                          r' <> OutOfFuel -> exB st st' (NC st) ds)).
       { intros rr -> Hq Hn. assert (Hs : st' = st1) by (destruct rr as [[z|]|k|]; inversion Hq; try reflexivity; contradiction).
-        subst st1. destruct (IHe _ _ _ _ _ _ _ me d E1 Hr1 HG Hok Hre HC) as (XA & XB).
+        subst st1. destruct (IHe _ _ _ _ _ _ _ me d E1 Hr1 HG Hre HC) as (XA & XB).
         split; [exact XA|]. intros Hk g me' r' ds Hd Hr'.
         destruct g; [simpl in Hd; inversion Hd; congruence|]. simpl in Hd.
         destruct (dr_expr g (defs_of st) (input_data st) me' args locs e1) as [ra d1] eqn:Da.
@@ -220,10 +200,10 @@ Proof.
       destruct Hb as (eb & E2 & Heb).
       assert (Hre1 : s_reent st1 = false) by exact (reent_false_of st1 st' (ME _ _ _ _ _ _ _ E2) Hre).
       assert (Hre0 : s_reent st = false) by exact (reent_false_of st st1 (ME _ _ _ _ _ _ _ E1) Hre1).
-      destruct (S2E _ _ _ _ _ _ _ me d E1 Hr1 HG Hok Hre0 HC) as [X|(G1 & _)]; [congruence|].
+      destruct (S2E _ _ _ _ _ _ _ me d E1 Hr1 HG Hre0 HC) as [X|(G1 & _)]; [congruence|].
       destruct (SE _ _ _ _ _ _ _ E2 Hr I1) as (I2 & F2 & A2).
-      destruct (IHe _ _ _ _ _ _ _ me d E1 Hr1 HG Hok Hre1 HC) as (XA1 & XB1).
-      destruct (IHe _ _ _ _ _ _ _ me d E2 Hr G1 (defs_ok_frame _ _ F1 Hok) Hre (Ctx_frame _ _ _ _ F1 HC)) as (XA2 & XB2).
+      destruct (IHe _ _ _ _ _ _ _ me d E1 Hr1 HG Hre1 HC) as (XA1 & XB1).
+      destruct (IHe _ _ _ _ _ _ _ me d E2 Hr G1 Hre (Ctx_frame _ _ _ _ F1 HC)) as (XA2 & XB2).
       destruct (frame_defs _ _ F1) as (D1 & Q1). rewrite (NC_frame _ _ F1) in XA2, XB2. rewrite D1, Q1 in XB2.
       split; [eapply exA_trans; eauto|].
       intros Hk g me' r' ds Hd Hr'.
@@ -250,7 +230,7 @@ Proof.
                 (r <> Err KDeep -> forall g me' r' ds,
                    dr_expr g (defs_of st) (input_data st) me' args locs (ECall c args0) = (r', ds) ->
                    r' <> OutOfFuel -> exB st st' (NC st) ds)).
-      { intros -> Hsh. destruct (IHa _ _ _ _ _ _ _ me d E1 Hr1 HG Hok Hre HC) as (XA & XB).
+      { intros -> Hsh. destruct (IHa _ _ _ _ _ _ _ me d E1 Hr1 HG Hre HC) as (XA & XB).
         split; [exact XA|]. intros Hk g me' r' ds Hd Hr'.
         destruct g; [simpl in Hd; inversion Hd; congruence|].
         destruct (Hsh _ _ _ _ Hd Hr' Hk) as (ra & Da & Hra).
@@ -283,10 +263,10 @@ Proof.
       clear Hstop.
       assert (Hre1 : s_reent st1 = false) by exact (reent_false_of st1 st' (MN _ _ _ _ _ H) Hre).
       assert (Hre0 : s_reent st = false) by exact (reent_false_of st st1 (MA _ _ _ _ _ _ _ E1) Hre1).
-      destruct (S2A _ _ _ _ _ _ _ me d E1 Hr1 HG Hok Hre0 HC) as [X|(G1 & _)]; [congruence|].
+      destruct (S2A _ _ _ _ _ _ _ me d E1 Hr1 HG Hre0 HC) as [X|(G1 & _)]; [congruence|].
       destruct (SN _ _ _ _ _ H Hr I1) as (I2 & F2 & A2).
-      destruct (IHa _ _ _ _ _ _ _ me d E1 Hr1 HG Hok Hre1 HC) as (XA1 & XB1).
-      destruct (IHn _ _ _ _ _ d H Hr G1 (defs_ok_frame _ _ F1 Hok) Hre (Ctx_depth _ _ _ (Ctx_frame _ _ _ _ F1 HC))) as (XA2 & XB2).
+      destruct (IHa _ _ _ _ _ _ _ me d E1 Hr1 HG Hre1 HC) as (XA1 & XB1).
+      destruct (IHn _ _ _ _ _ d H Hr G1 Hre (Ctx_depth _ _ _ (Ctx_frame _ _ _ _ F1 HC))) as (XA2 & XB2).
       destruct (frame_defs _ _ F1) as (D1 & Q1). rewrite (NC_frame _ _ F1) in XA2, XB2. rewrite D1, Q1 in XB2.
       split; [eapply exA_trans; eauto|].
       intros Hk g me' r' ds Hd Hr'.
@@ -302,14 +282,14 @@ Proof.
       destruct (lookup_ref (s_refs st) r0) as [[sp v]|]; inversion H; subst;
         (split; [apply exA_same; reflexivity|intros _ g me' r' ds _ _; apply exB_same; reflexivity]).
   - (* ---------------- argument lists ---------------- *)
-    intros st args locs line es r st' me d H Hr HG Hok Hre HC.
+    intros st args locs line es r st' me d H Hr HG Hre HC.
     destruct es as [|e rest]; simpl in H.
     { inversion H; subst. split; [apply exA_same; reflexivity|intros _ g me' r' ds _ _; apply exB_same; reflexivity]. }
     destruct (eval_expr f st args locs line e) as [r1 st1] eqn:E1.
     assert (Hr1 : r1 <> OutOfFuel) by (intros ->; inversion H; subst; congruence).
     destruct (SE _ _ _ _ _ _ _ E1 Hr1 (proj1 HG)) as (I1 & F1 & A1).
     destruct r1 as [v1|k1|]; [| |congruence].
-    2:{ inversion H; subst. destruct (IHe _ _ _ _ _ _ _ me d E1 Hr1 HG Hok Hre HC) as (XA & XB).
+    2:{ inversion H; subst. destruct (IHe _ _ _ _ _ _ _ me d E1 Hr1 HG Hre HC) as (XA & XB).
         split; [exact XA|]. intros Hk g me' r' ds Hd Hr'.
         destruct g; [simpl in Hd; inversion Hd; congruence|]. simpl in Hd.
         destruct (dr_expr g (defs_of st) (input_data st) me' args locs e) as [ra d1] eqn:Da.
@@ -321,10 +301,10 @@ Proof.
     assert (Hst : st' = st2) by (destruct r2; inversion H; reflexivity). subst st2.
     assert (Hre1 : s_reent st1 = false) by exact (reent_false_of st1 st' (MA _ _ _ _ _ _ _ E2) Hre).
     assert (Hre0 : s_reent st = false) by exact (reent_false_of st st1 (ME _ _ _ _ _ _ _ E1) Hre1).
-    destruct (S2E _ _ _ _ _ _ _ me d E1 Hr1 HG Hok Hre0 HC) as [X|(G1 & _)]; [congruence|].
+    destruct (S2E _ _ _ _ _ _ _ me d E1 Hr1 HG Hre0 HC) as [X|(G1 & _)]; [congruence|].
     destruct (SA _ _ _ _ _ _ _ E2 Hr2 I1) as (I2 & F2 & A2).
-    destruct (IHe _ _ _ _ _ _ _ me d E1 Hr1 HG Hok Hre1 HC) as (XA1 & XB1).
-    destruct (IHa _ _ _ _ _ _ _ me d E2 Hr2 G1 (defs_ok_frame _ _ F1 Hok) Hre (Ctx_frame _ _ _ _ F1 HC)) as (XA2 & XB2).
+    destruct (IHe _ _ _ _ _ _ _ me d E1 Hr1 HG Hre1 HC) as (XA1 & XB1).
+    destruct (IHa _ _ _ _ _ _ _ me d E2 Hr2 G1 Hre (Ctx_frame _ _ _ _ F1 HC)) as (XA2 & XB2).
     destruct (frame_defs _ _ F1) as (D1 & Q1). rewrite (NC_frame _ _ F1) in XA2, XB2. rewrite D1, Q1 in XB2.
     split; [eapply exA_trans; eauto|].
     intros Hk g me' r' ds Hd Hr'.
@@ -339,7 +319,7 @@ Proof.
     assert (ds = d1 ++ d2) by (destruct rb; inversion Hd; reflexivity). subst ds.
     eapply exB_app; [eapply XB1; eauto; discriminate|eapply XB2; eauto].
   - (* ---------------- element requested from a formula ---------------- *)
-    intros st line i r st' d H Hr HG Hok Hre Hdd. simpl in H.
+    intros st line i r st' d H Hr HG Hre Hdd. simpl in H.
     destruct (lookup_cell (s_cells st) (fst i)) as [cl|] eqn:El.
     2:{ inversion H; subst. split; [apply exA_same; reflexivity|intros _ g r' ds _ _; apply exB_same; reflexivity]. }
     destruct (if cl_cached cl then lookup_data (s_data st) i else None) as [v|] eqn:Eh; [|eapply IHf; eauto].
@@ -358,7 +338,7 @@ Proof.
       destruct (dr_body g (s_cells st, s_refs st) (input_data st) (fst i) (snd i) [] (cl_body cl)) as [[w|k|] dd];
         inversion Hd; now left.
   - (* ---------------- formula execution ---------------- *)
-    intros st cl i r st' d H Hr HG Hok Hre Hdd El Em. pose proof H as H0. simpl in H.
+    intros st cl i r st' d H Hr HG Hre Hdd El Em. pose proof H as H0. simpl in H.
     destruct (Nat.ltb (s_maxdepth st) (List.length (s_stack st))).
     { inversion H; subst. split; [apply exA_same; reflexivity|intros Hk; now elim Hk]. }
     set (st1 := upd_reent (upd_log (upd_stack st (i :: s_stack st)) (i :: s_log st))
@@ -367,6 +347,9 @@ Proof.
     assert (Hrb : rb <> OutOfFuel) by (intros ->; inversion H; subst; congruence).
     assert (Hflag2 : s_reent st2 = true -> s_reent st' = true).
     { intros F2. destruct rb as [v|k|]; [|inversion H; subst; now rewrite rollback_frame_reent|congruence].
+      destruct (tainted st2).
+      { destruct v as [z|]; [|destruct (cl_allow_none cl)]; inversion H; subst;
+          rewrite ?pop_tainted_reent, ?rollback_frame_reent; exact F2. }
       destruct (cl_cached cl).
       - unfold store_value in H.
         destruct v as [z|]; [|destruct (cl_allow_none cl)]; inversion H; subst;
@@ -382,8 +365,7 @@ Proof.
     pose proof (Good_push st i cl HG El Em) as G1. fold st1 in G1.
     assert (HC1 : Ctx st1 (fst i) (List.length (s_stack st))).
     { exists (snd i), (s_stack st). split; [destruct i; reflexivity|reflexivity]. }
-    assert (Hbok : body_ok (cl_body cl) = true) by (eapply Hok; eauto).
-    destruct (S2B _ _ _ _ _ _ _ _ _ (fst i) (List.length (s_stack st)) Eb Hrb G1 Hok R1 HC1 Hbok) as [X|(G2 & _)]; [congruence|].
+    destruct (S2B _ _ _ _ _ _ _ _ _ (fst i) (List.length (s_stack st)) Eb Hrb G1 R1 HC1) as [X|(G2 & _)]; [congruence|].
     destruct (proj1 (proj2 (proj2 (proj2 (sim_all (S f))))) _ _ _ _ _ H0 Hr (proj1 HG) El Em) as (I' & F' & A').
     destruct (SB _ _ _ _ _ _ _ _ _ Eb Hrb (proj1 G1)) as (I2 & F12 & A2).
     pose proof F12 as (S2 & K2 & M2 & Q2).
@@ -392,7 +374,7 @@ Proof.
     assert (Hcells2 : s_cells st2 = s_cells st) by (now apply static_cells).
     destruct (frame_defs _ _ F') as (D' & Q').
     assert (D2 : defs_of st2 = defs_of st) by (now apply static_defs).
-    destruct (IHb _ _ _ _ _ _ _ _ _ (fst i) (List.length (s_stack st)) Eb Hrb G1 Hok R2 HC1 Hbok) as (XA & XB).
+    destruct (IHb _ _ _ _ _ _ _ _ _ (fst i) (List.length (s_stack st)) Eb Hrb G1 R2 HC1) as (XA & XB).
     change (defs_of st1) with (defs_of st) in XB. change (input_data st1) with (input_data st) in XB.
     assert (Hnc1 : NC st1 = if cl_cached cl then Some i else NC st).
     { unfold NC. change (s_stack st1) with (i :: s_stack st). simpl.
@@ -423,22 +405,24 @@ Proof.
         unfold is_cached. rewrite Hcells2. exact Hc.
       - intros ->. exact (Hnin Hin). }
     (* --- leaving with an error (or a refused None) --- *)
-    assert (Rollback : forall ln0, st' = rollback_frame st2 ln0 ->
+    assert (Rollback : forall ln0 s', s_edges s' = s_edges (rollback_frame st2 ln0) ->
+              s_data s' = s_data (rollback_frame st2 ln0) -> st' = s' ->
               exA st st' (NC st) /\
               (forall g r' ds, dr_node g (defs_of st) (input_data st) i = (r', ds) -> r' <> OutOfFuel ->
                  (cl_cached cl = false -> forall g0 d0 rb', dr_body g0 (defs_of st) (input_data st) (fst i) (snd i) [] (cl_body cl) = (rb', d0) ->
                     rb' <> OutOfFuel -> exB st1 st2 (NC st) d0) ->
                  exB st st' (NC st) ds)).
-    { intros ln0 ->.
+    { intros ln0 s' Ee Ed ->.
       destruct (rollback_frame_graph st2 i (s_stack st) ln0 K2 (cv_edge _ (proj1 (proj2 G2)))) as (RE & _).
-      destruct (rollback_frame_fields st2 ln0) as (_ & FD & _).
+      destruct (rollback_frame_fields st2 ln0) as (_ & FD0 & _).
+      assert (FD : s_data s' = s_data st2) by congruence.
       split.
-      - intros a b He. apply RE in He as (He & _ & Hb). simpl in Hb.
+      - intros a b He. rewrite Ee in He. apply RE in He as (He & _ & Hb). simpl in Hb.
         destruct (XA a b He) as [X|[(j & Ej & ->)|(k & -> & N & Hk & E)]]; [now left| |].
         + destruct (cl_cached cl); [inversion Ej; subst j; now elim Hb|]. right; left. now exists j.
         + right; right. exists k. split; [reflexivity|]. split; [exact N|].
           split; [apply (Hkeep _ (or_introl FD)); exact Hk|now apply HexAt].
-      - intros g r' ds Hd Hr' Hbody j a Hj He. apply RE in He as (He & _ & _).
+      - intros g r' ds Hd Hr' Hbody j a Hj He. rewrite Ee in He. apply RE in He as (He & _ & _).
         destruct (Hjc j Hj) as (Hin & Hnh & Hne).
         destruct (XA a _ He) as [X|[(j' & Ej & Eq)|(k & Eq & N & Hk & E)]]; [now left| |].
         + destruct (cl_cached cl) eqn:Ec.
@@ -452,9 +436,28 @@ Proof.
             destruct (Hbody eq_refl g dg rg Dg Hrg j a Hj He) as [X|X]; [now left|right; now right].
         + apply node_of_inj in Eq. subst k. contradiction. }
     destruct rb as [v|kb|]; [| |congruence].
-    2:{ inversion H; subst r st'. destruct (Rollback ln eq_refl) as (RA & RB).
+    2:{ assert (Hs0 : st' = rollback_frame st2 ln) by (inversion H; reflexivity).
+        assert (Hr0 : r = Err kb) by (inversion H; reflexivity).
+        destruct (Rollback ln _ eq_refl eq_refl Hs0) as (RA & RB).
         split; [exact RA|]. intros Hk g r' ds Hd Hr'. apply (RB g r' ds Hd Hr').
-        intros Ec g0 d0 rb' Db Hrb'. rewrite Ec in XB. eapply XB; eauto. }
+        intros Ec g0 d0 rb' Db Hrb'. rewrite Ec in XB. eapply XB; eauto. rewrite <- Hr0. exact Hk. }
+    destruct (tainted st2) eqn:Et.
+    { (* returned, not kept: the graph changes as in a rollback *)
+      assert (Hcase : (r, st') = (Err KNone, rollback_frame st2 0) \/ (r, st') = (Val v, pop_tainted st2)).
+      { destruct v; [right; now rewrite <- H|]. destruct (cl_allow_none cl); [right|left]; now rewrite <- H. }
+      assert (RAB : exA st st' (NC st) /\
+              (forall g r' ds, dr_node g (defs_of st) (input_data st) i = (r', ds) -> r' <> OutOfFuel ->
+                 (cl_cached cl = false -> forall g0 d0 rb', dr_body g0 (defs_of st) (input_data st) (fst i) (snd i) [] (cl_body cl) = (rb', d0) ->
+                    rb' <> OutOfFuel -> exB st1 st2 (NC st) d0) ->
+                 exB st st' (NC st) ds)).
+      { destruct Hcase as [H'|H'].
+        - assert (Hs0 : st' = rollback_frame st2 0) by (inversion H'; reflexivity).
+          exact (Rollback 0 _ eq_refl eq_refl Hs0).
+        - assert (Hs0 : st' = pop_tainted st2) by (inversion H'; reflexivity).
+          exact (Rollback 0 (pop_tainted st2) eq_refl eq_refl Hs0). }
+      destruct RAB as (RA & RB).
+      split; [exact RA|]. intros Hk g r' ds Hd Hr'. apply (RB g r' ds Hd Hr').
+      intros Ec g0 d0 rb' Db Hrb'. rewrite Ec in XB. eapply XB; eauto. discriminate. }
     destruct (cl_cached cl) eqn:Ec.
     + (* cached *)
       assert (Hcase : (v = VNone /\ cl_allow_none cl = false) \/
@@ -464,7 +467,7 @@ Proof.
         destruct (cl_allow_none cl); [now right|now left]. }
       destruct Hcase as [(-> & Ea)|(Hs & Hnc)].
       * unfold store_value in H. rewrite Ea in H. inversion H; subst r st'.
-        destruct (Rollback 0 eq_refl) as (RA & RB).
+        destruct (Rollback 0 _ eq_refl eq_refl eq_refl) as (RA & RB).
         split; [exact RA|]. intros Hk g r' ds Hd Hr'. apply (RB g r' ds Hd Hr'). intros Ec'; discriminate.
       * rewrite Hs in H. inversion H; subst r st'. clear H.
         set (st3 := upd_data st2 (set_data (s_data st2) i v)) in *.
@@ -516,7 +519,7 @@ Proof.
       { destruct v; [right; now rewrite <- H|].
         destruct (cl_allow_none cl); [right; now rewrite <- H|left; repeat split; now rewrite <- H]. }
       destruct Hcase as [(-> & Ea & H')|H']; inversion H'; subst r st'; clear H' H.
-      { destruct (Rollback 0 eq_refl) as (RA & RB).
+      { destruct (Rollback 0 _ eq_refl eq_refl eq_refl) as (RA & RB).
         split; [exact RA|]. intros Hk g r' ds Hd Hr'. apply (RB g r' ds Hd Hr').
         intros _ g0 d0 rb' Db Hrb'. eapply XB; eauto. discriminate. }
       destruct (pop_frame_graph st2 i (s_stack st) K2) as (PE & _).
@@ -544,17 +547,16 @@ Proof.
         -- destruct (XB ltac:(discriminate) g (fst i) rg dg Dg Hrg j a Hj He) as [X|X]; [now left|right; now right].
         -- right. left. assert (a = NObj (fst i)) by congruence. subst a. reflexivity.
   - (* ---------------- statements ---------------- *)
-    intros st args locs whole rest idx r st' ln me d H Hr HG Hok Hre HC Hbok.
+    intros st args locs whole rest idx r st' ln me d H Hr HG Hre HC.
     destruct rest as [|s more]; simpl in H.
     { inversion H; subst. split; [apply exA_same; reflexivity|intros _ g me' r' ds _ _; apply exB_same; reflexivity]. }
-    simpl in Hbok. apply andb_true_iff in Hbok as (Hsok & Hmore).
     destruct s as [e|e h].
     + (* SAssign *)
       destruct (eval_expr f st args locs (stmt_line whole idx) e) as [r1 st1] eqn:E1.
       assert (Hr1 : r1 <> OutOfFuel) by (intros ->; inversion H; subst; congruence).
       destruct (SE _ _ _ _ _ _ _ E1 Hr1 (proj1 HG)) as (I1 & F1 & A1).
       destruct r1 as [v1|k1|]; [| |congruence].
-      2:{ inversion H; subst. destruct (IHe _ _ _ _ _ _ _ me d E1 Hr1 HG Hok Hre HC) as (XA & XB).
+      2:{ inversion H; subst. destruct (IHe _ _ _ _ _ _ _ me d E1 Hr1 HG Hre HC) as (XA & XB).
           split; [exact XA|]. intros Hk g me' r' ds Hd Hr'.
           destruct g; [simpl in Hd; inversion Hd; congruence|]. simpl in Hd.
           destruct (dr_expr g (defs_of st) (input_data st) me' args locs e) as [ra d1] eqn:Da.
@@ -563,10 +565,10 @@ Proof.
           inversion Hd; subst. eapply XB; eauto. }
       assert (Hre1 : s_reent st1 = false) by exact (reent_false_of st1 st' (MB _ _ _ _ _ _ _ _ _ H) Hre).
       assert (Hre0 : s_reent st = false) by exact (reent_false_of st st1 (ME _ _ _ _ _ _ _ E1) Hre1).
-      destruct (S2E _ _ _ _ _ _ _ me d E1 Hr1 HG Hok Hre0 HC) as [X|(G1 & _)]; [congruence|].
+      destruct (S2E _ _ _ _ _ _ _ me d E1 Hr1 HG Hre0 HC) as [X|(G1 & _)]; [congruence|].
       destruct (SB _ _ _ _ _ _ _ _ _ H Hr I1) as (I2 & F2 & A2).
-      destruct (IHe _ _ _ _ _ _ _ me d E1 Hr1 HG Hok Hre1 HC) as (XA1 & XB1).
-      destruct (IHb _ _ _ _ _ _ _ _ _ me d H Hr G1 (defs_ok_frame _ _ F1 Hok) Hre (Ctx_frame _ _ _ _ F1 HC) Hmore) as (XA2 & XB2).
+      destruct (IHe _ _ _ _ _ _ _ me d E1 Hr1 HG Hre1 HC) as (XA1 & XB1).
+      destruct (IHb _ _ _ _ _ _ _ _ _ me d H Hr G1 Hre (Ctx_frame _ _ _ _ F1 HC)) as (XA2 & XB2).
       destruct (frame_defs _ _ F1) as (D1 & Q1). rewrite (NC_frame _ _ F1) in XA2, XB2. rewrite D1, Q1 in XB2.
       split; [eapply exA_trans; eauto|].
       intros Hk g me' r' ds Hd Hr'.
@@ -585,10 +587,10 @@ Proof.
       destruct r1 as [v1|k1|]; [| |congruence].
       * assert (Hre1 : s_reent st1 = false) by exact (reent_false_of st1 st' (MB _ _ _ _ _ _ _ _ _ H) Hre).
         assert (Hre0 : s_reent st = false) by exact (reent_false_of st st1 (ME _ _ _ _ _ _ _ E1) Hre1).
-        destruct (S2E _ _ _ _ _ _ _ me d E1 Hr1 HG Hok Hre0 HC) as [X|(G1 & _)]; [congruence|].
+        destruct (S2E _ _ _ _ _ _ _ me d E1 Hr1 HG Hre0 HC) as [X|(G1 & _)]; [congruence|].
         destruct (SB _ _ _ _ _ _ _ _ _ H Hr I1) as (I2 & F2 & A2).
-        destruct (IHe _ _ _ _ _ _ _ me d E1 Hr1 HG Hok Hre1 HC) as (XA1 & XB1).
-        destruct (IHb _ _ _ _ _ _ _ _ _ me d H Hr G1 (defs_ok_frame _ _ F1 Hok) Hre (Ctx_frame _ _ _ _ F1 HC) Hmore) as (XA2 & XB2).
+        destruct (IHe _ _ _ _ _ _ _ me d E1 Hr1 HG Hre1 HC) as (XA1 & XB1).
+        destruct (IHb _ _ _ _ _ _ _ _ _ me d H Hr G1 Hre (Ctx_frame _ _ _ _ F1 HC)) as (XA2 & XB2).
         rewrite (NC_frame _ _ F1) in XA2, XB2. rewrite D1, Q1 in XB2.
         split; [eapply exA_trans; eauto|].
         intros Hk g me' r' ds Hd Hr'.
@@ -600,7 +602,7 @@ Proof.
         inversion Hd; subst r' ds.
         eapply exB_app; [eapply XB1; eauto; discriminate|eapply XB2; eauto].
       * destruct (catchable k1) eqn:Ek.
-        2:{ inversion H; subst. destruct (IHe _ _ _ _ _ _ _ me d E1 Hr1 HG Hok Hre HC) as (XA & XB).
+        2:{ inversion H; subst. destruct (IHe _ _ _ _ _ _ _ me d E1 Hr1 HG Hre HC) as (XA & XB).
             split; [exact XA|]. intros Hk g me' r' ds Hd Hr'.
             destruct g; [simpl in Hd; inversion Hd; congruence|]. simpl in Hd.
             destruct (dr_expr g (defs_of st) (input_data st) me' args locs e) as [ra d1] eqn:Da.
@@ -619,13 +621,12 @@ Proof.
         assert (Hre2 : s_reent st2 = false) by exact (reent_false_of st2 st' Hmono2 Hre).
         assert (Hre1 : s_reent st1 = false) by exact (reent_false_of st1' st2 (ME _ _ _ _ _ _ _ E2) Hre2).
         assert (Hre0 : s_reent st = false) by exact (reent_false_of st st1 (ME _ _ _ _ _ _ _ E1) Hre1).
-        destruct (S2E _ _ _ _ _ _ _ me d E1 Hr1 HG Hok Hre0 HC) as [X|(G1 & _)]; [congruence|].
+        destruct (S2E _ _ _ _ _ _ _ me d E1 Hr1 HG Hre0 HC) as [X|(G1 & _)]; [congruence|].
         assert (G1' : Good st1').
         { destruct G1 as (HI1 & C1' & SO1). split; [exact HI1|]. split; [|exact SO1]. constructor; apply C1'. }
-        assert (Hok1 : defs_ok (s_cells st1')) by exact (defs_ok_frame _ _ F1 Hok).
         assert (HC1 : Ctx st1' me d) by exact (Ctx_frame _ _ _ _ F1 HC).
-        destruct (IHe _ _ _ _ _ _ _ me d E1 Hr1 HG Hok Hre1 HC) as (XA1 & XB1).
-        destruct (IHe _ _ _ _ _ _ _ me d E2 Hr2 G1' Hok1 Hre2 HC1) as (XA2 & XB2).
+        destruct (IHe _ _ _ _ _ _ _ me d E1 Hr1 HG Hre1 HC) as (XA1 & XB1).
+        destruct (IHe _ _ _ _ _ _ _ me d E2 Hr2 G1' Hre2 HC1) as (XA2 & XB2).
         assert (Hnc1 : NC st1' = NC st).
         { rewrite <- (NC_frame _ _ F1). unfold NC. change (s_stack st1') with (s_stack st1).
           apply nearest_cached_cells. reflexivity. }
@@ -648,10 +649,10 @@ Proof.
             pose proof (align_dr_expr _ _ _ _ _ _ _ _ _ _ A2 ltac:(discriminate) Hk Dh Hrh) as ->.
             inversion Hd; subst r' ds.
             eapply exB_app; [eapply XB1; eauto|eapply XB2; eauto]. }
-        destruct (S2E _ _ _ _ _ _ _ me d E2 Hr2 G1' Hok1 Hre1 HC1) as [X|(G2 & _)]; [congruence|].
+        destruct (S2E _ _ _ _ _ _ _ me d E2 Hr2 G1' Hre1 HC1) as [X|(G2 & _)]; [congruence|].
         destruct (SB _ _ _ _ _ _ _ _ _ H Hr I2) as (I3 & F3 & A3).
         assert (F02 : frame st st2) by (eapply frame_trans; eauto).
-        destruct (IHb _ _ _ _ _ _ _ _ _ me d H Hr G2 (defs_ok_frame _ _ F02 Hok) Hre (Ctx_frame _ _ _ _ F02 HC) Hmore) as (XA3 & XB3).
+        destruct (IHb _ _ _ _ _ _ _ _ _ me d H Hr G2 Hre (Ctx_frame _ _ _ _ F02 HC)) as (XA3 & XB3).
         destruct (frame_defs _ _ F02) as (D2 & Q2). rewrite (NC_frame _ _ F02) in XA3, XB3. rewrite D2, Q2 in XB3.
         split; [eapply (exA_trans st st2 st'); eauto|].
         intros Hk g me' r' ds Hd Hr'.
@@ -696,22 +697,21 @@ Qed.
 Theorem eval_top_Exa fuel st i r st' :
   eval_top fuel st i = (r, st') -> r <> OutOfFuel -> Quiet st -> s_reent st' = false -> Exa st -> Exa st'.
 Proof.
-  intros H Hr Q Hre X. destruct Q as (HG & Hs & Hrs & Hok).
+  intros H Hr Q Hre X. destruct Q as (HG & Hs & Hrs).
   pose proof H as H0. unfold eval_top in H.
   destruct (lookup_cell (s_cells st) (fst i)) as [cl|] eqn:El; [|inversion H; subst; exact X].
   destruct (if cl_cached cl then lookup_data (s_data st) i else None) eqn:Eh; [inversion H; subst; exact X|].
-  set (st0 := upd_rolled (upd_err st None) []) in *.
+  set (st0 := upd_taint (upd_rolled (upd_err st None) []) 0) in *.
   destruct (eval_formula fuel st0 cl i) as [rf st1] eqn:Ef.
   assert (Hrf : rf <> OutOfFuel) by (intros ->; inversion H; subst; congruence).
-  assert (G0 : Good st0).
-  { destruct HG as (HI & C & SO). split; [exact HI|]. split; [|exact SO]. constructor; apply C. }
+  assert (G0 : Good st0) by (apply Good_top_start; exact HG).
   assert (Hedges : s_edges st' = s_edges st1 /\ defs_of st' = defs_of st1 /\ input_data st' = input_data st1
                    /\ s_reent st' = s_reent st1).
   { destruct rf; inversion H; subst; repeat split; reflexivity. }
   destruct Hedges as (He & Hd & Hi & Hre').
   assert (Hre1 : s_reent st1 = false) by congruence.
   destruct (proj1 (proj2 (proj2 (proj2 (ex_all fuel)))) st0 cl i rf st1 (List.length (s_stack st0) - 1)
-              Ef Hrf G0 Hok Hre1 eq_refl El Eh) as (XA & _).
+              Ef Hrf G0 Hre1 eq_refl El Eh) as (XA & _).
   destruct (proj1 (proj2 (proj2 (proj2 (sim_all fuel)))) st0 cl i _ _ Ef Hrf (proj1 G0) El Eh) as (_ & F & _).
   destruct (frame_defs _ _ F) as (D1 & Q1).
   intros a b Hin. rewrite He in Hin.
